@@ -51,6 +51,8 @@ func init() {
 			"a proxy may add framing and its own hop fields (Host, Content-Length, Transfer-Encoding, Trailer, Connection: close/keep-alive, Via, Forwarded, X-Forwarded-*); any other added field is reported",
 			"trailer fields not announced by a Trailer header may be discarded (RFC 9110 §6.5.2); a 407 response is taken to have no content although the proxy declares no length",
 			"after a request whose authority is a different spelling of the same origin both continuing and ending the connection are accepted",
+			"target unchanged is judged on the effective request URI: origin-form plus Host (or absolute-form) towards the origin, an empty path becomes \"/\" (for OPTIONS \"*\" is accepted as well), a default port may be dropped",
+			"a connection that ends with a reset instead of an orderly close is not judged for completeness of the responses in flight (RFC 9112 §9.6)",
 		},
 		ExpectProbes: []string{
 			"c16.auth.on", "c16.auth.off", "c16.auth.rejected-then-accepted", "c16.auth.never", "c16.pipelined>1", "c16.pipelined>=8", "c16.requests=20",
